@@ -289,6 +289,142 @@ def execute_grammar(case) -> Outcome:
                    info={"outcome": outcome, "bytes_consumed": consumed, "site": out["exc"] and out["exc"].get("inner")})
 
 
+
+# ----------------------------------------------------------------------------- (1d) several HTTP/2 streams open when the bad input arrives
+
+def siblings_target(stage, rounds, n, order, sync, seg=None):
+    """One caller opens n streamed responses on ONE HTTP/2 connection (heads only), then reads the bodies in `order`, then closes everything.
+    Returns ([(step, exc_info)], world): every exception any step raised."""
+    pool_cfg = {"http2": True} if stage == "h2-alpn" else {"http2": True, "http1": False}
+    url = ("https" if stage == "h2-alpn" else "http") + "://a.test/x"
+
+    def factory(world, pipe):
+        return ReplayPeer(world, pipe, rounds, tls_alpn="h2")
+
+    world = World(peer_factory=factory, seg=seg)
+    world.seg_everything = True
+    pool = build_pool(world, pool_cfg, sync=sync)
+    from ..drivers import HarnessHang, exc_info
+
+    def note(excs, step, exc):
+        if isinstance(exc, HarnessHang) or (isinstance(exc, __import__("asyncio").CancelledError) and exc.args and exc.args[0] == "vf-hang"):
+            excs.append((step, {"type": "HANG", "name": "HANG", "documented": False, "msg": str(exc) or "blocked for ever", "inner": None, "base": False}))
+        else:
+            excs.append((step, exc_info(exc)))
+
+    excs = []
+    if sync:
+        import contextlib
+        resps = []
+        with contextlib.ExitStack() as stack:
+            for i in range(n):
+                try:
+                    resps.append(stack.enter_context(pool.stream("GET", f"{url}{i}")))
+                except BaseException as exc:
+                    note(excs, f"open#{i}", exc)
+                    resps.append(None)
+            for i in order:
+                if resps[i % n] is None:
+                    continue
+                try:
+                    for _ in resps[i % n].iter_stream():
+                        pass
+                except BaseException as exc:
+                    note(excs, f"read#{i % n}", exc)
+            for i, r in enumerate(resps):
+                if r is not None:
+                    try:
+                        r.close()
+                    except BaseException as exc:
+                        note(excs, f"close#{i}", exc)
+        try:
+            pool.close()
+        except BaseException as exc:
+            note(excs, "pool.close", exc)
+    else:
+        async def go():
+            import contextlib
+            resps = []
+            async with contextlib.AsyncExitStack() as stack:
+                for i in range(n):
+                    try:
+                        resps.append(await stack.enter_async_context(pool.stream("GET", f"{url}{i}")))
+                    except GeneratorExit:
+                        raise
+                    except BaseException as exc:
+                        note(excs, f"open#{i}", exc)
+                        resps.append(None)
+                for i in order:
+                    if resps[i % n] is None:
+                        continue
+                    try:
+                        async for _ in resps[i % n].aiter_stream():
+                            pass
+                    except GeneratorExit:
+                        raise
+                    except BaseException as exc:
+                        note(excs, f"read#{i % n}", exc)
+                for i, r in enumerate(resps):
+                    if r is not None:
+                        try:
+                            await r.aclose()
+                        except GeneratorExit:
+                            raise
+                        except BaseException as exc:
+                            note(excs, f"close#{i}", exc)
+            try:
+                await pool.aclose()
+            except BaseException as exc:
+                note(excs, "pool.close", exc)
+
+        run_async(go())
+    return excs, world
+
+
+def _resp_head(sid, end=False, status=b"200"):
+    return raw_frame(1, 5 if end else 4, sid, hpack_block([(b":status", status)], huffman=False))
+
+
+@st.composite
+def sibling_cases(draw):
+    n = draw(st.integers(2, 3))
+    pre = raw_frame(4, 0, 0, struct.pack(">HI", 3, 100))
+    heads = [_resp_head(2 * i + 1) for i in range(n)]
+    # HPACK: the literal ':status: 200' without indexing is stateless, so the heads can be sent in any grouping
+    rounds = [pre]
+    if draw(st.booleans()):
+        rounds += heads
+    else:
+        rounds += [heads[0], b"".join(heads[1:])]
+    some_data = [raw_frame(0, 0, 2 * i + 1, b"part-") for i in range(n) if draw(st.booleans())]
+    bad = draw(st.lists(h2_frames(), min_size=1, max_size=4))
+    tail = [raw_frame(0, 1, 2 * i + 1, b"end") for i in range(n) if draw(st.integers(0, 2)) == 0]
+    rounds.append(b"".join(some_data) + b"".join(bad) + b"".join(tail))
+    if draw(st.integers(0, 3)) == 0:
+        rounds.append(b"".join(draw(st.lists(h2_frames(), min_size=1, max_size=2))))
+    return {"stage": draw(st.sampled_from(["h2-alpn", "h2-prior"])), "n": n, "rounds": rounds, "order": draw(st.permutations(list(range(n)))),
+            "seg": draw(st.sampled_from([None, None, [1], [9], [5, 100]])), "sync": draw(st.booleans())}
+
+
+def execute_siblings(case) -> Outcome:
+    excs, world = siblings_target(case["stage"], case["rounds"], case["n"], case["order"], case.get("sync", True), seg=case.get("seg"))
+    what = (f"[{'sync' if case.get('sync', True) else 'async'}] {case['n']} HTTP/2 responses open on one connection, bodies read in order {list(case['order'])}, "
+            f"peer bytes after the heads {b''.join(case['rounds'][1:])[-100:]!r}")
+    vio = []
+    for step, exc in excs:
+        if exc["type"] == "HANG":
+            vio.append(V(P, "hang", f"{what}: {step} does not terminate although the peer's input has ended", stage="h2", exc="HANG", site=exc.get("inner")))
+        elif not exc["documented"]:
+            vio.append(V(P, "undocumented-exception", f"{what}: {step} raised {exc['type']}: {exc['msg'][:200]} (raised in {exc.get('inner')})",
+                         stage="h2", exc=exc["type"], site=exc.get("inner")))
+        elif step.startswith("read#") and exc["name"] != "RemoteProtocolError":
+            vio.append(V(P, "wrong-class", f"{what}: {step} raised {exc['type']} for malformed peer data (expected RemoteProtocolError): {exc['msg'][:200]} "
+                         f"(raised in {exc.get('inner')})", stage="h2", exc=exc["type"], site=exc.get("inner")))
+    failing_reads = sum(1 for step, _ in excs if step.startswith("read#"))
+    tags = ["siblings", f"n={case['n']}", f"failing-reads={failing_reads}"] + sorted({"out-" + e["name"] for _, e in excs})
+    return Outcome(vio[:4], tags, failing_reads >= 2, key=[case["stage"], case["rounds"], list(case["order"]), case.get("seg")],
+                   info={"steps": [(s_, e["name"]) for s_, e in excs]})
+
 # ----------------------------------------------------------------------------- (2) mutations of valid conversations
 
 _VALID = {}
@@ -566,6 +702,9 @@ RULE = ("grammar layer: HTTP/1.1 responses assembled from valid and defective st
         "Content-Length, bad chunk sizes, oversized heads, NUL/CR, early EOF), HTTP/2 frame sequences of any type 0-255 with arbitrary flags, stream ids "
         "(0, odd, even, far future, reserved bit), lying lengths and payloads that are valid for the type, random, or HPACK with bad indices / oversize "
         "integers / bad Huffman / defective :status, SOCKS5 method / auth / command replies (valid, refusing, malformed, merged, split) and CONNECT replies; "
+        "h2-siblings layer: one caller holds 2-3 streamed HTTP/2 responses open on one connection when the defective frames arrive, then reads the bodies in a "
+        "drawn order and closes everything - EVERY step (open, read, close, pool close) must raise nothing but documented classes, body reads only "
+        "RemoteProtocolError (the error a sibling's read ran into must reach the other streams as a documented class too); "
         "mutation layer: bit flips, byte sets, deletions, duplications, insertions, reversals and truncations of server streams recorded from well-formed "
         "conversations (HTTP/1.1 Content-Length / chunked+100 / HTTP/1.0 close / 204, HTTP/2 with padding, CONTINUATION, trailers, 103, SOCKS with and "
         "without auth, CONNECT); faults layer (enumerated): every documented backend exception at every network op of 9 connection kinds, sync and async; "
@@ -577,6 +716,7 @@ PROP = Prop(
     P, level="exploration", rule=RULE,
     layers=[
         Layer("grammar", stall_is_violation=True, strategy=grammar_cases, execute=execute_grammar, budget={"quick": 6000, "thorough": 200000}),
+        Layer("h2-siblings", stall_is_violation=True, strategy=sibling_cases, execute=execute_siblings, budget={"quick": 1500, "thorough": 60000}),
         Layer("mutation", stall_is_violation=True, strategy=mutation_cases, execute=execute_mutation, budget={"quick": 3000, "thorough": 120000}),
         Layer("faults", stall_is_violation=True, cases=fault_cases, execute=execute_fault),
         Layer("invalid-requests", strategy=invalid_request_cases, execute=execute_invalid, budget={"quick": 300, "thorough": 3000}),
